@@ -42,7 +42,7 @@ META = {
              "exclusion grid, Enum, Map, Tuple, Instance in instance/type/adapt modes, This, "
              "Callable, Module, the legacy Trait() handlers), a fixed list of compounds and seeded "
              "random compounds (Either / Trait(...) of 2-4 members, Tuple-in-Either, Either-in-Tuple, "
-             "nested Either, mixed fast/slow) x the whole value lattice (358 values: ints, floats incl. "
+             "nested Either, mixed fast/slow) x the whole value lattice (~350 values: ints, floats incl. "
              "NaNs/bounds, strings, subclasses, numpy scalars/arrays, hostile protocol objects, "
              "containers, classes, callables) plus per-configuration derived tuples for Tuple "
              "shapes. One oracle evaluation = one (configuration, value) pair judged by the C-vs-"
@@ -53,16 +53,18 @@ META = {
              "configuration that accepts some other value of the same class."),
     "phases": [{"name": "main", "flavour": "P", "shards": 16}],
     "gates": {
-        "quick": {"evaluations": 60000, "fast_descriptor_specs": 100, "both_accept": 8000,
+        "quick": {"evaluations": 45000, "fast_descriptor_specs": 120, "both_accept": 12000,
                   "both_reject": 30000, "compound_law_evaluations": 30000,
-                  "compound_accept_via_nonfirst": 1500, "tuple_law_evaluations": 3000,
-                  "tuple_law_accepts": 300, "alone_validations": 60000,
-                  "py_nonTE_c_TE_allowed": 50, "converted_results": 1500},
-        "thorough": {"evaluations": 900000, "fast_descriptor_specs": 1500, "both_accept": 120000,
-                     "both_reject": 400000, "compound_law_evaluations": 600000,
-                     "compound_accept_via_nonfirst": 30000, "tuple_law_evaluations": 40000,
-                     "tuple_law_accepts": 4000, "alone_validations": 1200000,
-                     "py_nonTE_c_TE_allowed": 800, "converted_results": 20000},
+                  "compound_accept_via_nonfirst": 6000, "compound_accept_via_slow": 250,
+                  "mixed_compound_specs": 12, "tuple_law_evaluations": 7000,
+                  "tuple_law_accepts": 450, "alone_validations": 70000,
+                  "py_nonTE_c_TE_allowed": 450, "converted_results": 8000},
+        "thorough": {"evaluations": 1000000, "fast_descriptor_specs": 2500, "both_accept": 350000,
+                     "both_reject": 650000, "compound_law_evaluations": 850000,
+                     "compound_accept_via_nonfirst": 180000, "compound_accept_via_slow": 8000,
+                     "mixed_compound_specs": 400, "tuple_law_evaluations": 180000,
+                     "tuple_law_accepts": 33000, "alone_validations": 2200000,
+                     "py_nonTE_c_TE_allowed": 12000, "converted_results": 250000},
     },
     "assumptions": [
         "the handler's Python `validate` method is the specification of the fast path (the "
@@ -347,7 +349,24 @@ def ordered_leaves(handler):
 
 
 def tuple_members(handler):
-    return [Alt(m.handler, None if m.handler is not None else m) for m in handler.types]
+    """Members of a Tuple, each as a fresh stand-alone CTrait.  A member without
+    handler (Any) is used as is; a member whose handler cannot build its own
+    CTrait (a compound) gets the member's default value copied, because the
+    'default' adaptation mode answers with the trait's default."""
+    out = []
+    for m in handler.types:
+        h = m.handler
+        if h is None:
+            out.append(Alt(None, m))
+            continue
+        ct = alone(h)
+        if getattr(type(h), "as_ctrait", None) is None:
+            try:
+                ct.set_default_value(*m.default_value())
+            except Exception:
+                pass
+        out.append(Alt(h, ct))
+    return out
 
 
 class Built(object):
@@ -467,6 +486,9 @@ class Checker(object):
             ctx.count("both_accept")
             if c[1] is not v:
                 ctx.count("converted_results")
+                if len(ctx.samples) < 4 and b.alts is None and type(c[1]) is not type(v):
+                    ctx.sample({"spec": b.spec, "value_id": vid, "C_result": short(c[1], 60),
+                                "Python_result": short(p[1], 60), "verdict": "agree"})
             return
         if verdict == "agree-reject":
             ctx.count("both_reject")
@@ -610,6 +632,8 @@ class Checker(object):
                     a.kind, kcls)
         if key is None:
             key = "compound/%s/%s/result=%s,first-accepting-alone=%s" % (a.kind, kcls, tclass(rc), tclass(r))
+            if type(rc) is type(r):
+                key += "/value-differs"
             if other is not None:
                 key += "/matches-later-alternative" if other > first_ok else "/matches-earlier-alternative"
         self.viol(key, b, vid, cls, v,
@@ -713,6 +737,8 @@ class Checker(object):
         if k <= 0:
             return
         vals = self.values
+        if b.skip_bigidx:
+            vals = [e for e in vals if e[0] not in self.bigidx]
         for si, members in enumerate(self.tuple_shapes(b)):
             n = len(members)
             if n == 0 or n > 4:
@@ -778,6 +804,10 @@ def range_grid(full):
                 ("Range", 1.0, 1.0, False, False), ("Range", 1.0, 1.0, True, False),
                 ("Range", 1.0, 0.0, False, False), ("Range", -inf, inf, False, False),
                 ("Range", -inf, inf, True, True), ("Range", 0.0, inf, False, True)]
+    # the lattice holds b and both neighbours of every finite bound used here
+    for r in out:
+        for b in r[1:3]:
+            assert b is None or abs(b) == inf or float(b) in BOUNDS, r
     return out
 
 
